@@ -77,7 +77,18 @@ def units(tier, seed):
         dims = NOWORK[term][0]
         for D in dims:
             for N in b["nowork_N"][D]:
-                us.append({"name": f"nowork/{term}/D{D}/N{N}", "kind": "nowork", "term": term, "D": D, "N": N, "deg3_3d": b["nowork_deg3_3d"], "cost": N ** (2 * D)})
+                # (extend the lattice one mode beyond the band?, degree of the lattice).  A cubic form is decided by Lambda_3; in 3D the extended
+                # rotational lattice (250 solenoidal basis vectors -> 2.6e6 points) is out of reach: thorough uses Lambda_3 inside the band plus
+                # Lambda_2 on the extended band (partial, stated), quick uses Lambda_2 / Lambda_3 inside the band
+                if D < 3:
+                    variants = [(True, 3)]
+                elif NOWORK[term][2] == "rot":
+                    variants = [(False, 3), (True, 2)] if b["nowork_deg3_3d"] else [(False, 2)]
+                else:
+                    variants = [(True, 3)] if b["nowork_deg3_3d"] else [(False, 3)]
+                for ext, deg in variants:
+                    us.append({"name": f"nowork/{term}/D{D}/N{N}/ext{int(ext)}deg{deg}", "kind": "nowork", "term": term, "D": D, "N": N, "ext": ext, "deg": deg,
+                               "cost": N ** (2 * D) * (10 if ext else 1)})
     for eq in EQUIL:
         us.append({"name": f"equil/{eq}", "kind": "equil", "eq": eq, "b": b, "cost": 30})
     return us
@@ -276,7 +287,7 @@ def unit_nowork(u, rec):
         return
     # energy-type cubic forms on Lambda_3 of the basis up to ONE MODE BEYOND the documented band: the term pre-truncates its input and its
     # output lies in the band, so <u, N(u)> = <trunc u, N(trunc u)> must vanish for these states as well (this catches a band that is too wide)
-    Kx = min(K + 1, (N - 1) // 2) if (D < 3 or u["deg3_3d"]) else K  # quick keeps the 3D lattice at the documented band
+    Kx = min(K + 1, (N - 1) // 2) if u["ext"] else K
     inb = [b for b in full_basis if all(abs(v) <= Kx for v in b[0]) and not ref.is_nyquist(b[0], N)]
     Bin = ref.basis_fields(D, N, L, inb, X)
     if kind == "rot":
@@ -298,10 +309,10 @@ def unit_nowork(u, rec):
             for p in pols:
                 vecs.append(np.stack([p[c] * Bin[i] for c in range(3)]))
         vecs = np.stack(vecs)
-        deg = 3 if u["deg3_3d"] else 2
+        deg = u["deg"]
     else:
         vecs = Bin[:, None]
-        deg = 3
+        deg = u["deg"]
     n = len(vecs)
     combs = []
     for j in range(1, deg + 1):
